@@ -4,7 +4,8 @@ import DracoModel.Builders
 import DracoModel.Cleanup
 import DracoModel.Stripifier
 import DracoModel.C14Check
-/- op handlers for the mesh building / clean-up utilities (C14); mirrored by /tmp/slice_G/cpp/g_ops.cc
+import DracoModel.C14Verify
+/- op handlers for the mesh building / clean-up utilities (C14); mirrored by harness/ops_meshtools.cc
 
    dedupv  <geom>                 → geom            PointCloud::DeduplicateAttributeValues
    dedupp  <geom>                 → geom            PointCloud::DeduplicatePointIds
@@ -15,6 +16,10 @@ import DracoModel.C14Check
    buildmesh <nf> <na> {<attType> <dt> <nc> <nz> <kinds> <hex>}*      kinds: one char per face, 1 = per-face value
    buildpc <np> <dedup> <na> {<attType> <dt> <nc> <nz> <mode> <hex>}*
    c14check <op…>                 → T/F flags of the C14 checkers on the same input
+   c14v <op…> @@ <result…>        → <clause=T|F …> | <model output>
+        the clauses of C14 (DracoModel/C14Verify.lean) evaluated on the input of the operation and the
+        RESULT tokens, i.e. on what the implementation returned for that op line (first part of the
+        harness output); followed by what the model computes for the same op line
 -/
 namespace Draco.Ops
 open Draco Draco.Proto
@@ -36,7 +41,7 @@ def meshAtts : Nat → List String → List (AttSpec × List FaceValue)
   | 0, _ => []
   | n + 1, aty :: dt :: nc :: nz :: kinds :: hx :: rest =>
     let s : AttSpec := { attType := natOf aty, dataType := natOf dt, numComponents := natOf nc, normalized := nz == "1" }
-    (s, faceValues s.stride kinds.toList (bytesOfHex hx)) :: meshAtts n rest
+    (s, faceValues s.stride (if kinds == "-" then [] else kinds.toList) (bytesOfHex hx)) :: meshAtts n rest
   | _, _ => []
 
 def pcAtts (np : Nat) : Nat → List String → List (AttSpec × List Bytes)
@@ -92,8 +97,54 @@ def meshToolCheck : List String → String
   | [] => ""
   | _ => "bad-op"
 
+/-- result tokens of the implementation → geometry (`none`: error / null / failure marker) -/
+def resultGeom : List String → Option Geometry
+  | "ok" :: g => some (geomOf g)
+  | "mesh" :: g => some (geomOf ("mesh" :: g))
+  | "pc" :: g => some (geomOf ("pc" :: g))
+  | _ => none
+
+/-- the C14 clauses on (input, implementation's result) -/
+def meshToolVerifyFlags (opToks res : List String) : C14.Flags :=
+  match opToks with
+  | "dedupv" :: g => let g := geomOf g
+    match resultGeom res with
+    | some g' => if g.valid then C14.verifyDedupValues g g' else [("input-valid", false)]
+    | none => [("result", false)]
+  | "dedupp" :: g => let g := geomOf g
+    match resultGeom res with
+    | some g' => if g.valid then C14.verifyDedupPointIds g g' else [("input-valid", false)]
+    | none => [("result", false)]
+  | "dedupvp" :: g => let g := geomOf g
+    match resultGeom res with
+    | some g' => if g.valid then C14.verifyDedupBoth g g' else [("input-valid", false)]
+    | none => [("result", false)]
+  | "cleanup" :: bits :: g => let g := geomOf g
+    if !g.valid then [("input-valid", false)]
+    else match res with
+      | ["err"] => C14.verifyCleanup (optsOf (natOf bits)) g none
+      | "ok" :: _ => C14.verifyCleanup (optsOf (natOf bits)) g (resultGeom res)
+      | _ => [("result", false)]
+  | "strips" :: r :: g => let g := geomOf g
+    if !g.valid then [("input-valid", false)]
+    else match res with
+      | ["fail"] => C14.verifyStrips (r == "1") g none
+      | ["ok", l] => C14.verifyStrips (r == "1") g (some (natList l))
+      | _ => [("result", false)]
+  | "buildmesh" :: nf :: na :: rest =>
+    C14.verifyBuildMesh { numFaces := natOf nf, atts := meshAtts (natOf na) rest } (resultGeom res)
+  | "buildpc" :: np :: dd :: na :: rest =>
+    C14.verifyBuildPointCloud
+      { numPoints := natOf np, dedup := dd == "1", atts := pcAtts (natOf np) (natOf na) rest } (resultGeom res)
+  | _ => [("op", false)]
+
+def meshToolVerify (toks : List String) : String :=
+  let opToks := toks.takeWhile (· != "@@")
+  let res := (toks.dropWhile (· != "@@")).drop 1
+  (meshToolVerifyFlags opToks res).toText ++ " | " ++ meshToolRun opToks
+
 def meshToolOps : List (String × (List String → String)) :=
   (["dedupv", "dedupp", "dedupvp", "cleanup", "strips", "buildmesh", "buildpc"].map fun op =>
-    (op, fun args => meshToolRun (op :: args))) ++ [("c14check", meshToolCheck)]
+    (op, fun args => meshToolRun (op :: args))) ++ [("c14check", meshToolCheck), ("c14v", meshToolVerify)]
 
 end Draco.Ops
